@@ -141,10 +141,19 @@ partial def limitsB : DType Float → Bool
   | .struct ms _ _ => ms.all (fun m => limitsB m.2)
   | _ => true
 
+/-- the float leaf at `pos` prints as a text that reads back as `-0.0` (`'%.1f' % -0.04`): the recorded finding
+`neg-zero-text` (`Props.C02.text_form_changes_where_format_law_fails`) -/
+def readsNegZero (L : TextLib Float) (pos : List Nat) (x : Float) : Bool :=
+  match L.evalAtom (L.fmtFloat pos x) with
+  | some (.float z) => !FloatOps.isNaN z && !FloatOps.same (FloatOps.addZero z) z
+  | _ => false
+
 /-- the instances of `TextLib.Lawful.fmtDouble` / `fmtScaled` at the float leaves of `v` hold (a hypothesis of
-`text_roundtrip`, decided here so that a case outside it is counted and not judged) -/
-partial def fmtLawB (L : TextLib Float) : List Nat → DType Float → PVal Float → Bool
+`text_roundtrip`, decided here so that a case outside it is counted and not judged); `relaxed`: a leaf whose text
+reads back as `-0.0` passes as well -/
+partial def fmtLawB (L : TextLib Float) (relaxed : Bool) : List Nat → DType Float → PVal Float → Bool
   | pos, .double _ _ _ _, .float x =>
+    (relaxed && readsNegZero L pos x) ||
     (match L.evalAtom (L.fmtFloat pos x) with
      | some w => (match PVal.toFloat? w with
        | some r => !FloatOps.isNaN r &&
@@ -152,6 +161,7 @@ partial def fmtLawB (L : TextLib Float) : List Nat → DType Float → PVal Floa
        | none => false)
      | none => false)
   | pos, .scaled scale _ _ _ _, .float x =>
+    (relaxed && readsNegZero L pos x) ||
     (match L.evalAtom (L.fmtFloat pos x) with
      | some w => (match PVal.toFloat? w with
        | some r => (match DType.snap scale r with
@@ -159,12 +169,12 @@ partial def fmtLawB (L : TextLib Float) : List Nat → DType Float → PVal Floa
          | none => false)
        | none => false)
      | none => false)
-  | pos, .array e _ _, .tuple vs => vs.all (fmtLawB L (pos ++ [0]) e)
-  | pos, .tuple es, .tuple vs => ((es.zip vs).zipIdx).all (fun ((t, v), i) => fmtLawB L (pos ++ [i]) t v)
+  | pos, .array e _ _, .tuple vs => vs.all (fmtLawB L relaxed (pos ++ [0]) e)
+  | pos, .tuple es, .tuple vs => ((es.zip vs).zipIdx).all (fun ((t, v), i) => fmtLawB L relaxed (pos ++ [i]) t v)
   | pos, .struct ms _ _, .dict fields =>
     fields.all (fun (k, v) =>
       match (ms.zipIdx).find? (fun (m, _) => m.1 == k) with
-      | some ((_, t), i) => fmtLawB L (pos ++ [i]) t v
+      | some ((_, t), i) => fmtLawB L relaxed (pos ++ [i]) t v
       | none => true)
   | _, _, _ => true
 
@@ -225,7 +235,9 @@ def handle (j : Json) : R Json := do
     let valid := validB dt v
     let canon := canonB v
     let complete := completeB dt v
-    let fmtlaw := fmtLawB L [] dt v
+    let fmtlaw := fmtLawB L false [] dt v
+    -- the law fails only at leaves whose text reads back as -0.0: judged, under the recorded finding's clause names
+    let negzero := !fmtlaw && fmtLawB L true [] dt v
     let cbuilt := match impl.getObjVal? "cdt" with
       | .ok x => (x.getObjVal? "err").toOption.isNone && !x.isNull
       | .error _ => false
@@ -234,15 +246,17 @@ def handle (j : Json) : R Json := do
       (match iexp with
        | some e => judgeWire dt v e inode cbuilt iclient
        | none => ["export:missing"]) ++
-      (if canon && complete && fmtlaw then
+      (if canon && complete && (fmtlaw || negzero) then
         (match itext with
-         | some t => judgeText v t iback iagain
+         | some t => (judgeText v t iback iagain).map (fun c => if negzero then c ++ ":neg-zero-text" else c)
          | none => ["text:missing"])
        else []) ++
       (match icval, ictext with
        | some (.ok cv), some t =>
-         (if canonB cv && (match cdt with | some c => fmtLawB L [] c cv | none => false) then
-            (judgeText cv t icback icagain).map ("client-" ++ ·) else []) ++
+         (let claw := match cdt with | some c => fmtLawB L false [] c cv | none => false
+          let cneg := !claw && (match cdt with | some c => fmtLawB L true [] c cv | none => false)
+          if canonB cv && (claw || cneg) then
+            (judgeText cv t icback icagain).map (fun c => "client-" ++ (if cneg then c ++ ":neg-zero-text" else c)) else []) ++
          (match icback, isent with
           | some b, some s => judgeClientWrite dt b s icnode
           | some (.ok _), none => ["cwrite:missing"]
@@ -259,7 +273,7 @@ def handle (j : Json) : R Json := do
       | .bytes b => Base64.decode? (Base64.encode b) == some b
       | _ => true
     return Json.mkObj [("wf", .bool dt.wfB), ("valid", .bool valid), ("canon", .bool canon), ("complete", .bool complete),
-      ("fmtlaw", .bool fmtlaw), ("cvalid", match cvalid with | some b => .bool b | none => .null), ("limits", .bool (limitsB dt)), ("model", Json.mkObj [
+      ("fmtlaw", .bool fmtlaw), ("negzero", .bool negzero), ("cvalid", match cvalid with | some b => .bool b | none => .null), ("limits", .bool (limitsB dt)), ("model", Json.mkObj [
         ("exp", outToJson jvalToJson (some mexp)), ("node", outToJson pvalToJson mnode),
         ("client", outToJson pvalToJson mclient), ("cdt", jopt dtypeToJson cdt),
         ("text", outToJson textToJson (some mtext)), ("back", outToJson pvalToJson mback),
